@@ -24,6 +24,7 @@ CONSTANTS
   Denied <- MCNoDenied
   Toks = {"none"}
   ResvTO = 30
+  QuotaDenied = {}
   HasAuth = FALSE
   CredKinds <- MCCredKinds
   Methods <- MCMethods
